@@ -179,6 +179,7 @@ lemma draw_ok (_hp0 : 0 < (p : Int)) (stream : List Int) (t : Int) (N h : ℕ) (
 /-- ★ bridge: the translated `random_split`, reading its coefficient draws from `stream` (values in range(p), at
 least `t` per secret), is the model's `randomSplit` on the integer operations with the same stream as coefficients -/
 theorem random_split_eq (isField : Bool) (s : List Int) (t m : Int) (stream : List Int) (hs : s ≠ [])
+    (hguard : t = 0 ∨ m < (p : Int))
     (hlen : t.toNat * s.length ≤ stream.length)
     (hrange : ∀ v ∈ stream.take (t.toNat * s.length), 0 ≤ v ∧ v < (p : Int)) :
     ThreshaMirror.random_split p isField s t m stream
@@ -187,9 +188,18 @@ theorem random_split_eq (isField : Bool) (s : List Int) (t m : Int) (stream : Li
   have hN : 0 < s.length := List.length_pos_iff.2 hs
   unfold ThreshaMirror.random_split
   simp -iota only []
+  have hng : ¬ (t ≠ 0 ∧ m ≥ (p : Int)) := by
+    rintro ⟨h1, h2⟩
+    rcases hguard with h | h
+    · exact h1 h
+    · omega
+  rw [if_neg hng]
   have hg : pyIdxOk s.length 0 = true := by
     simp [pyIdxOk]; omega
-  rw [hg, init_mat, if_neg (by decide)]
+  have hT : decide ((s.length : Int) > 0 ∧ isField = true) = isField := by
+    cases isField <;> simp [hN]
+  rw [init_mat]
+  simp only [hg, hT, Bool.true_eq_false, and_false, ↓reduceIte]
   have key := pyFor_enum_states (ε := TErr) s
     (fun it_ st_ => match it_, st_ with
       | (h, s_h), (stream, shares) =>
